@@ -689,6 +689,12 @@ Section Highest.
       destruct (cmp m m') eqn:E; [apply (cmp_eq _ _ Dm Dm' E) | congruence |].
       rewrite (cmp_antisym m m'), E in H2. cbn in H2. congruence.
   Qed.
+  Theorem highest_is_maximum : forall l m, Forall dom l -> highest cmp l = Some m ->
+    In m l /\ (forall y, In y l -> cmp m y <> Lt).
+  Proof.
+    intros l m HD H. destruct l as [|x r]; [discriminate|]. unfold highest in H. inversion H; subst; clear H.
+    inversion HD as [|a b Dx Dr]; subst. exact (fold_pick_max r x Dx Dr).
+  Qed.
 End Highest.
 
 (* instantiated: variants as (variant string, keyed components); any decomposition into submatches *)
@@ -705,3 +711,206 @@ Proof.
   - intros x y z. apply compare_trans_lt.
   - apply Forall_forall. auto.
 Qed.
+
+Theorem highest_precedence_is_maximum : forall (l : list (bytes * list kcomp)) m,
+  (forall x y, In x l -> In y l -> vcmp x y = Eq -> x = y) ->
+  highest vcmp l = Some m -> In m l /\ (forall y, In y l -> vcmp m y <> Lt).
+Proof.
+  intros l m Heq H.
+  apply (highest_is_maximum _ vcmp (fun x => In x l)); auto.
+  - intros x y. apply compare_antisym.
+  - intros x y z. apply compare_trans_lt.
+  - apply Forall_forall. auto.
+Qed.
+
+(* ------------------------------------------------------------------ when does Compare return 0: canonical keys *)
+Definition is_varwidth (t : N) : bool := (t =? tGLOB) || (t =? tSD).
+(* what Compare looks at in a component: its type; the LENGTH of the submatch for * and /**; the submatch text for a literal *)
+Definition key (c : kcomp) : N * bytes :=
+  (fst c, if is_varwidth (fst c) then [N.of_nat (length (snd c))] else if fst c =? tLIT then snd c else []).
+(* the components Compare can reach: up to the first terminal-type component, the implicit terminal if there is none *)
+Fixpoint canon (l : list kcomp) : list kcomp :=
+  match l with
+  | [] => [kterm]
+  | c :: r => if is_terminal (fst c) then [c] else c :: canon r
+  end.
+
+Lemma step_none_key : forall a b, step a b = None -> key a = key b /\ is_terminal (fst a) = false.
+Proof.
+  intros [t s] [u r] H. unfold step in H. cbn [fst snd] in *. unfold key, is_varwidth. cbn [fst snd].
+  destruct (t ?= u) eqn:E; try discriminate. apply N.compare_eq in E. subst u.
+  destruct ((t =? tGLOB) || (t =? tSD)) eqn:Ev.
+  - destruct (N.of_nat (length s) ?= N.of_nat (length r)) eqn:El; try discriminate.
+    apply N.compare_eq in El. rewrite El. split; [reflexivity|].
+    unfold is_terminal, tGLOB, tSD, tSDT, tSDST, tTERM in *. lia.
+  - destruct (is_terminal t) eqn:Et; [discriminate|]. split; [|reflexivity].
+    destruct (t =? tLIT); [|reflexivity].
+    destruct (bytes_cmp s r) eqn:Eb; try discriminate. apply bytes_cmp_eq in Eb. subst. reflexivity.
+Qed.
+
+Lemma key_terminal : forall a b, fst a = fst b -> is_terminal (fst a) = true -> key a = key b.
+Proof.
+  intros [t s] [u r] H Ht. cbn [fst] in *. subst u. unfold key, is_varwidth. cbn [fst snd].
+  assert (E1 : (t =? tGLOB) || (t =? tSD) = false) by (unfold is_terminal, tGLOB, tSD, tSDT, tSDST, tTERM in *; lia).
+  assert (E2 : (t =? tLIT) = false) by (unfold is_terminal, tLIT, tSDT, tSDST, tTERM in *; lia).
+  rewrite E1, E2. reflexivity.
+Qed.
+
+Lemma canon_hd : forall l, is_terminal (fst (hd' l)) = true -> canon l = [hd' l].
+Proof. intros [|c r] H; [reflexivity|]. cbn [hd'] in H. cbn [canon]. rewrite H. reflexivity. Qed.
+
+Theorem compare_eq_same_keys : forall a b, compare a b = Eq -> map key (canon a) = map key (canon b).
+Proof.
+  intros a b. remember (length a + length b)%nat as n eqn:Hn. revert a b Hn.
+  induction n as [n IH] using lt_wf_ind. intros a b Hn H.
+  rewrite compare_unfold in H.
+  destruct (step (hd' a) (hd' b)) as [c|] eqn:S.
+  - subst c. destruct (step_eq_terminal _ _ S) as [Hf Ht].
+    assert (Htb : is_terminal (fst (hd' b)) = true) by (rewrite <- Hf; exact Ht).
+    rewrite (canon_hd _ Ht), (canon_hd _ Htb). cbn [map]. f_equal. apply key_terminal; assumption.
+  - destruct (step_none_key _ _ S) as [Hk Hnt].
+    assert (Hntb : is_terminal (fst (hd' b)) = false).
+    { assert (E : fst (hd' a) = fst (hd' b)) by (pose proof (f_equal fst Hk) as F; unfold key in F; cbn [fst] in F; exact F).
+      rewrite <- E. exact Hnt. }
+    destruct a as [|x a']; [cbn in Hnt; discriminate|]. destruct b as [|y b']; [cbn in Hntb; discriminate|].
+    cbn [hd' tl canon] in *. rewrite Hnt, Hntb. cbn [map]. f_equal; [exact Hk|].
+    apply (IH (length a' + length b')%nat); [cbn in Hn; lia | reflexivity | exact H].
+Qed.
+
+(* total on variants with distinct canonical keys: they are strictly ordered, one way or the other *)
+Corollary compare_total_on_distinct : forall a b, map key (canon a) <> map key (canon b) ->
+  (compare a b = Lt /\ compare b a = Gt) \/ (compare a b = Gt /\ compare b a = Lt).
+Proof.
+  intros a b H. pose proof (compare_antisym a b) as A. destruct (compare a b) eqn:E.
+  - exfalso. apply H. apply compare_eq_same_keys. exact E.
+  - left. split; [reflexivity | rewrite A; reflexivity].
+  - right. split; [reflexivity | rewrite A; reflexivity].
+Qed.
+
+(* ------------------------------------------------------------------ the match statement for the ported matcher *)
+(* executable per (pattern, path): the matcher treats the groups of this pattern as "some syntactic expansion matches" *)
+Definition group_transparent (p : bytes) (t : node) (path : bytes) : bool :=
+  Bool.eqb (path_pattern_matches p path) (existsb (fun s => path_pattern_matches s path) (expand t)).
+
+Theorem ported_match_iff_some_rendered_variant : forall p t rs path,
+  parse_pattern p = Some t -> render_all t = Some rs -> normal_form t = true -> group_transparent p t path = true ->
+  path_pattern_matches p path = existsb (fun v => path_pattern_matches v path) rs.
+Proof.
+  intros p t rs path Hp Hr Hn Hg. apply (match_iff_some_rendered_variant path_pattern_matches p t rs path Hp Hr Hn).
+  unfold group_transparent in Hg. apply eqb_prop in Hg. exact Hg.
+Qed.
+
+(* ------------------------------------------------------------------ the carve-outs of the match statement, syntactically,
+   and the statement itself on a complete finite scope.
+   Marked expansion: the syntactic expansion of the pattern text in which byte 1 marks the place where an alternative of a
+   group was spliced in and byte 2 where it ends (the markers add no text). *)
+Definition mOPEN : N := 1.
+Definition mCLOSE : N := 2.
+Fixpoint mark_tokens (ts : list token) (depth : nat) : list token :=
+  match ts with
+  | [] => []
+  | TOpen :: r => TOpen :: TText [mOPEN] :: mark_tokens r (S depth)
+  | TClose :: r => TText [mCLOSE] :: TClose :: mark_tokens r (pred depth)
+  | TComma :: r => match depth with
+                   | O => TComma :: mark_tokens r depth
+                   | _ => TText [mCLOSE] :: TComma :: TText [mOPEN] :: mark_tokens r depth
+                   end
+  | tk :: r => tk :: mark_tokens r depth
+  end.
+Definition marked_expansions (p : bytes) : list bytes :=
+  match scan p with
+  | Some ts => match parse_go (mark_tokens ts 0) [] [] with Some t => expand t | None => [] end
+  | None => []
+  end.
+
+Definition is_marker (c : N) : bool := (c =? mOPEN) || (c =? mCLOSE).
+(* the text from here on, markers skipped, begins with two stars *)
+Fixpoint starts_dstar (s : bytes) (need : nat) : bool :=
+  match need with
+  | O => true
+  | S k => match s with
+           | [] => false
+           | c :: r => if is_marker c then starts_dstar r need else (c =? cSTAR) && starts_dstar r k
+           end
+  end.
+(* scan a marked expansion; l1 l2 l3 = the last three bytes of real text (l1 most recent; escaped bytes count as 120),
+   looking at every place where a group alternative starts *)
+Fixpoint carve_scan (s : bytes) (l1 l2 l3 : N) : bool :=
+  match s with
+  | [] => false
+  | c :: r =>
+      if c =? mOPEN then
+        (l1 =? cSTAR)                                                   (* star-before-group *)
+        || ((l1 =? cSLASH) && (l2 =? cSTAR) && (l3 =? cSTAR))           (* doublestar-slash-before-group *)
+        || ((l1 =? cSLASH) && starts_dstar r 2)                         (* slash-before-doublestar-group *)
+        || carve_scan r l1 l2 l3
+      else if c =? mCLOSE then carve_scan r l1 l2 l3
+      else if c =? cBSL then match r with
+                             | [] => false
+                             | _ :: r2 => carve_scan r2 120 l1 l2
+                             end
+      else carve_scan r c l1 l2
+  end.
+(* the four recorded classes: rendering rewrites an expansion, or a star / doublestar-slash / slash-before-doublestar stands
+   where an alternative is spliced in *)
+Definition carved (p : bytes) (t : node) : bool :=
+  negb (normal_form t) || existsb (fun m => carve_scan m 0 0 0) (marked_expansions p).
+
+(* the scope: slash followed by at most k tokens over a b / * ? { , } ** ; all clean paths of length at most 4 over a b / *)
+Definition scope_tokens : list bytes :=
+  [[97]; [98]; [cSLASH]; [cSTAR]; [cQM]; [cOPEN]; [cCOMMA]; [cCLOSE]; [cSTAR; cSTAR]].
+Fixpoint token_strings (k : nat) : list bytes :=
+  match k with
+  | O => [[]]
+  | S k' => [] :: flat_map (fun tk => map (app tk) (token_strings k')) scope_tokens
+  end.
+Definition scope_patterns (k : nat) : list bytes := map (cons cSLASH) (token_strings k).
+Fixpoint has_dslash (s : bytes) : bool :=
+  match s with
+  | a :: r => match r with b :: _ => ((a =? cSLASH) && (b =? cSLASH)) || has_dslash r | [] => false end
+  | [] => false
+  end.
+Fixpoint abs_strings (k : nat) : list bytes :=
+  match k with
+  | O => [[]]
+  | S k' => [] :: flat_map (fun c => map (cons c) (abs_strings k')) [97; 98; cSLASH]
+  end.
+Definition scope_paths (k : nat) : list bytes :=
+  filter (fun s => negb (has_dslash s)) (map (cons cSLASH) (abs_strings k)).
+
+Definition match_ok_or_carved (p path : bytes) : bool :=
+  match parse_pattern p with
+  | None => true
+  | Some t => match render_all t with
+              | None => false
+              | Some rs => Bool.eqb (path_pattern_matches p path) (existsb (fun v => path_pattern_matches v path) rs)
+                           || carved p t
+              end
+  end.
+
+Lemma scope_check : forallb (fun p => forallb (match_ok_or_carved p) (scope_paths 3)) (scope_patterns 3) = true.
+Proof. vm_compute. reflexivity. Qed.
+
+Theorem match_iff_some_variant_on_scope : forall p path t rs,
+  In p (scope_patterns 3) -> In path (scope_paths 3) ->
+  parse_pattern p = Some t -> render_all t = Some rs -> carved p t = false ->
+  path_pattern_matches p path = existsb (fun v => path_pattern_matches v path) rs.
+Proof.
+  intros p path t rs Hp Hpath Ht Hr Hc.
+  pose proof scope_check as S. rewrite forallb_forall in S. specialize (S _ Hp).
+  rewrite forallb_forall in S. specialize (S _ Hpath).
+  unfold match_ok_or_carved in S. rewrite Ht, Hr, Hc, orb_false_r in S. apply eqb_prop in S. exact S.
+Qed.
+
+(* a slash directly before a group with a doublestar alternative (finding key slash-before-doublestar-group) *)
+Lemma slash_before_doublestar_group_refuted :
+  exists p t rs path, parse_pattern p = Some t /\ render_all t = Some rs /\ normal_form t = true /\
+                      path_pattern_matches p path = false /\ existsb (fun v => path_pattern_matches v path) rs = true.
+Proof.
+  exists [cSLASH; 97; cSLASH; cOPEN; cSTAR; cSTAR; cCLOSE]. eexists. eexists. exists [cSLASH; 97].
+  split; [vm_compute; reflexivity|]. split; [vm_compute; reflexivity|]. split; [vm_compute; reflexivity|].
+  split; vm_compute; reflexivity.
+Qed.
+
+Lemma compare_irreflexive : forall a, compare a a <> Lt.
+Proof. intro a. rewrite compare_refl. discriminate. Qed.
